@@ -15,7 +15,13 @@ RULE = ('values from the grammar of harness/pyvalues.py (see C22) plus nested co
         'the values go through to_json_obj in both; search adds self-containing and 3000-deep containers and replies of a '
         'real engine whose formulas return such values, marshalled as sandbox.py does. A case is non-trivial when the encoded '
         'form differs from the value.')
-TRUSTED = ['hand-written model Model/Values.v of objtypes.encode_object/decode_object, actions.get_action_repr and '
+TRUSTED = ['harness/ot2v.py: fail-closed translator objtypes.encode_object / decode_object -> coq/gen/Objtypes_gen.v, run on every check; '
+           'its output is proved equal to encode_f / decode_f (Proofs/Objtypes_bridge.v) and evaluated against the running functions on every case',
+           'harness/act2v.py: the class dispatch of actions.convert_action_values -> coq/gen/Actions_gen.v, proved equal to the model lists',
+           'Model/ValuesPy.v + ValuesPyEnc.v: the generic Python run time of the generated code and the models of the methods it calls',
+           'pinned glue (AST equality): RaisedException.encode_args/decode_args/has_user_input, safe_shift, RecordSet._get_encodable_row_ids, '
+           'convert_recursive_helper/_in_action, encode_objects, get_action_repr, ActionBundle/Envelope.to_json_obj',
+           'hand-written model Model/Values.v of objtypes.encode_object/decode_object, actions.get_action_repr and '
            'ActionBundle.to_json_obj, compared with the running functions on every case',
            'Lib/PyFloat.v: timedelta.total_seconds and timedelta(seconds=float) re-implemented over exact dyadics, compared on every '
            'date/datetime case',
@@ -31,7 +37,8 @@ ASSUMPTIONS = ['wf: name/message/details of a RaisedException, the fields of Rec
                'the resulting wall time when that offset is favoured, and is smaller than a day',
                'the interpreter recursion limit is below half of marshal\'s depth limit of 2000 (monitored: sys.getrecursionlimit() = 1000)',
                'subclasses of int/float/str/bytes do not override methods; opaque objects are not equal to the Pending/Censored sentinels']
-TECHNIQUE = 'Coq proof over a hand-written executable model of objtypes.py/actions.py + differential cases (vm_compute) + real marshal + impl oracle'
+TECHNIQUE = ('Coq proof over definitions translated from objtypes.py/actions.py on every run, bridged pointwise to a hand model '
+             '+ differential cases (vm_compute) of both + real marshal + impl oracle')
 LEVEL_TEXT = ('Kernel-checked theorems about the model of encode_object/decode_object over the whole value universe V, any recursion fuel and '
               'arbitrary library oracles: the encoded form of a well-formed value is marshalable (only exact '
               'None/bool/int/float/str, lists, tuples, str-keyed dicts) and nests at most 2*fuel+r+3 levels, so are action representations '
